@@ -17,6 +17,7 @@
   implicit operation and the items `esVisit` builds for words and phrases (Model/Es.lean) are these.
   `visit_boost`, `visit_fuzzy`, `visit_proximity`: which attribute of the item built for the operand receives the number
   (`proximity_is_generated`: slop when the field in effect is analysed, fuzziness otherwise).
+  `visit_search_field`: the context handed down to the expression of the field (`field_context_is_generated`).
   Modelled, not translated: the constructors of `EWord` / `EPhrase` (`itemOf`: a phrase loses its quotes and has its
   blanks collapsed, the method of a word defaults to `term`, of a phrase to `match_phrase`).
 -/
@@ -184,7 +185,26 @@ theorem fuzzy_boost_are_generated (dflt : Str) (na : List Str) (m : Bool) (d : D
     setBy "fuzziness" d en = setFuzzy d en ∧ setBy "boost" d en = setBoost d en := by
   simp [Es.visit_fuzzy_nomarker, Es.visit_fuzzy_marker, Es.visit_boost_nomarker, Es.visit_boost_marker, setBy]
 
+/-! ### the context a field hands down to its expression -/
+
+def genFieldCtx (c : EsCfg) (x : EsCtx) (n other : Str) (l : Lay) : Except PyErr FieldCtx :=
+  match x.fieldPrefix with
+  | none => Es.visit_search_field_context_noprefix c.notAnalyzed n other l.name x.name
+  | some p => Es.visit_search_field_context_prefix c.notAnalyzed n other l.name x.name p
+
+/-- **the field in effect below `name:` is the translated code**: the prefix handed down is the enclosing prefix
+followed by the dotted parts of the name, the analysed marker says whether the full dotted name is among the
+non-analysed fields -- the two values the model's `esVisit` puts into the context of the field's expression -- and
+foreign keys of the context are kept -/
+theorem field_context_is_generated (c : EsCfg) (x : EsCtx) (n other : Str) (l : Lay) :
+    genFieldCtx c x n other l =
+      .ok (!c.notAnalyzed.contains (joinDot (x.fieldPrefix.getD [] ++ splitOnChar '.' n)),
+           x.fieldPrefix.getD [] ++ splitOnChar '.' n, true) := by
+  unfold genFieldCtx
+  cases hp : x.fieldPrefix <;>
+    simp [Es.visit_search_field_context_noprefix, Es.visit_search_field_context_prefix, PyPrim.splitOn, joinDot]
+
 /-- every function the translator was asked for was translated -/
-theorem es_names_complete : Es.esNames.length = 8 + 6 := by decide
+theorem es_names_complete : Es.esNames.length = 8 + 6 + 2 := by decide
 
 end Luqum.Props.GenEs
